@@ -606,3 +606,182 @@ def now():
 def chunk(seq, n):
     """Split seq into n nearly equal interleaved parts."""
     return [seq[i::n] for i in range(n)]
+
+
+# --------------------------------------------------------------------------
+# synthesiser: new valid numbers from old ones (DESIGN 2.4), judged by the library itself
+
+def _repair(mod, cand):
+    """Try to turn cand into a valid number by changing one of the outer
+    positions (or the last two) - finds the check characters without knowing
+    where the module keeps them."""
+    n = len(cand)
+    if n == 0:
+        return None
+    order = [n - 1, n - 2, 0, 1, n - 3, 2, 3]
+    seen = set()
+    for p in order:
+        if p < 0 or p >= n or p in seen:
+            continue
+        seen.add(p)
+        c = cand[p]
+        if c.isdigit():
+            pool = '0123456789' + ('XK' if p >= n - 2 else '')
+        elif c.isalpha():
+            pool = 'ABCDEFGHIJKLMNOPQRSTUVWXYZ' + ('0123456789' if p >= n - 2 else '')
+        else:
+            continue
+        for ch in pool:
+            if ch == c:
+                continue
+            t = cand[:p] + ch + cand[p + 1:]
+            try:
+                if mod.is_valid(t) is True:
+                    return t
+            except Exception:  # noqa: B902
+                pass
+    if n >= 2 and cand[-1].isdigit() and cand[-2].isdigit():
+        for a in '0123456789':
+            for b in '0123456789':
+                t = cand[:-2] + a + b
+                try:
+                    if mod.is_valid(t) is True:
+                        return t
+                except Exception:  # noqa: B902
+                    pass
+    if n >= 4 and cand[2].isdigit() and cand[3].isdigit() and cand[:2].isalpha():
+        for a in '0123456789':      # IBAN-like: check digits after a country code
+            for b in '0123456789':
+                t = cand[:2] + a + b + cand[4:]
+                try:
+                    if mod.is_valid(t) is True:
+                        return t
+                except Exception:  # noqa: B902
+                    pass
+    return None
+
+
+def synth_valid(name, count, rng, base=None, leading_zero_bias=0.3):
+    """Up to `count` synthesised numbers that module `name` accepts: canonical forms of corpus numbers with 1-3
+    payload characters changed (leading zeros forced with some probability) and the check characters repaired by
+    search through is_valid()."""
+    mod = get_module(name)
+    nums = base if base is not None else corpus(name)
+    canon = []
+    for v in nums:
+        try:
+            c = mod.validate(v)
+        except Exception:  # noqa: B902
+            continue
+        if isinstance(c, str) and c:
+            canon.append(c)
+    if not canon:
+        return []
+    out = []
+    seen = set(canon)
+    tries = 0
+    while len(out) < count and tries < count * 12:
+        tries += 1
+        c = rng.choice(canon)
+        s = list(c)
+        idx = [i for i, ch in enumerate(s) if ch.isalnum()]
+        if not idx:
+            continue
+        k = rng.choice((1, 1, 2, 3))
+        for p in rng.sample(idx, min(k, len(idx))):
+            if s[p].isdigit():
+                s[p] = rng.choice('0123456789')
+            elif s[p].isalpha() and s[p].isascii():
+                s[p] = rng.choice('ABCDEFGHIJKLMNOPQRSTUVWXYZ') if s[p].isupper() else rng.choice('abcdefghijklmnopqrstuvwxyz')
+        if rng.random() < leading_zero_bias:
+            digits = [i for i in idx if s[i].isdigit()]
+            if digits:
+                first = digits[0]
+                for i in range(first, min(first + rng.choice((1, 2, 3)), len(s))):
+                    if s[i].isdigit():
+                        s[i] = '0'
+        cand = ''.join(s)
+        if cand in seen:
+            continue
+        try:
+            ok = mod.is_valid(cand) is True
+        except Exception:  # noqa: B902
+            ok = False
+        if not ok:
+            cand = _repair(mod, cand)
+            if cand is None or cand in seen:
+                continue
+        seen.add(cand)
+        out.append(cand)
+    return out
+
+
+_const_cache = {}
+
+
+def module_string_constants(name):
+    """String literals (3..60 chars) in the module's source, e.g. court names, prefixes, region names."""
+    if name not in _const_cache:
+        import ast
+        mod = get_module(name)
+        consts = []
+        seen = set()
+        try:
+            tree = ast.parse(open(mod.__file__, encoding='utf-8').read())
+        except Exception:  # noqa: B902
+            tree = None
+        if tree is not None:
+            for node in ast.walk(tree):
+                if isinstance(node, ast.Constant) and isinstance(node.value, str):
+                    t = node.value
+                    if 3 <= len(t) <= 60 and '\n' not in t and t not in seen:
+                        seen.add(t)
+                        consts.append(t)
+        _const_cache[name] = consts
+    return _const_cache[name]
+
+
+def constant_variants(name, nums, rng, cap=200):
+    """Valid numbers obtained by replacing a module string constant that occurs in a valid number with the module's
+    other string constants (reaches table entries such as alias names that no doctest mentions)."""
+    mod = get_module(name)
+    consts = module_string_constants(name)
+    if len(consts) < 4:
+        return []
+    out = []
+    seen = set(nums)
+    for v in nums[:6]:
+        low = v.lower()
+        hits = [c for c in consts if c.lower() in low and len(c) >= 3]
+        hits.sort(key=len, reverse=True)
+        for c in hits[:2]:
+            i = low.find(c.lower())
+            others = [o for o in consts if o != c]
+            if len(others) > cap:
+                others = rng.sample(others, cap)
+            for o in others:
+                cand = v[:i] + o + v[i + len(c):]
+                if cand in seen:
+                    continue
+                seen.add(cand)
+                try:
+                    if mod.is_valid(cand) is True:
+                        out.append(cand)
+                except Exception:  # noqa: B902
+                    pass
+                if len(out) >= cap:
+                    return out
+    return out
+
+
+def rich_corpus(name, limit, rng, n_synth=None, n_const=None):
+    """Corpus sample + synthesised valid numbers + constant-substituted variants."""
+    nums = corpus(name, limit=limit, rng=rng)
+    n_synth = limit if n_synth is None else n_synth
+    extra = synth_valid(name, n_synth, rng) if n_synth else []
+    cv = constant_variants(name, corpus(name), rng)
+    if n_const is None:
+        n_const = max(4, limit)
+    if len(cv) > n_const:
+        cv = rng.sample(cv, n_const)
+    return nums + extra + cv
